@@ -108,9 +108,18 @@ def run(ctx):
     graph_nodes = len(g.nodes)
     del g
     nvals = len(powers)
-    inp = {"mode": "replay", "powers": powers, "byz": byz, "maxround": 14, "scheds": scheds, "synctail": True,
-           "syncmax": 2 * nvals, "byzafter": True, "random": 80 if quick else 2000, "randlen": 60}
+    # the graph paths carry the model's own synchronous suffix (GST step, gossip deliveries, tick firings);
+    # the random prefixes are completed by the driver's synchronous-suffix executor
+    inp = {"mode": "replay", "powers": powers, "byz": byz, "maxround": 14, "scheds": scheds, "synctail": not quick,
+           "syncmax": 2 * nvals, "byzafter": True, "random": 0}
     rows, stats = cc.run_driver(ctx, binp, inp, "A")
+    inp2 = dict(inp, scheds=[], synctail=True, random=80 if quick else 2000, randlen=60)
+    rows2, stats2 = cc.run_driver(ctx, binp, inp2, "A2")
+    off = max([r["run"] for r in rows] + [0])
+    for r in rows2:
+        r["run"] += off
+    rows += rows2
+    stats = {k: stats[k] + stats2[k] for k in stats}
     v = cc.validate(ctx, rows, info, byz, 14, "A", dedupe=True)
     account(v, rows, "2+1")
     cov["configs"].append({"config": "2 correct + 1 Byzantine, GST model rounds 0..%d, pre-GST rounds 0..%d, Bound %d" % (mr, premax, bound),
